@@ -2,6 +2,7 @@ package props
 
 import (
 	"fmt"
+	"github.com/tobgu/qframe/config/groupby"
 	"testing"
 
 	"github.com/tobgu/qframe"
@@ -110,6 +111,39 @@ func TestC05(t *testing.T) {
 				}
 				if wantClasses[k] == 0 {
 					t.Fatalf("returned row %d (%s) is not an input row\n%s", r, k, desc())
+				}
+			}
+		}
+		// Distinct applied to results that are already "distinct" in some sense must still look at its own arguments:
+		// the result under the other Null setting, the same call again, and an Aggregate result (one row per key
+		// combination) reduced to a subset of its keys
+		if rapid.IntRange(0, 2).Draw(t, "followup") == 0 {
+			other := !g.groupNull
+			fns := []groupby.ConfigFunc{groupby.Null(other)}
+			if len(g.keys) > 0 {
+				fns = append(fns, groupby.Columns(g.keys...))
+			}
+			r2 := res.Distinct(fns...)
+			want2 := len(hx.Partition(got, keyCols, other))
+			if r2.Err != nil || r2.Len() != want2 {
+				t.Fatalf("Distinct(null=%v) of the Distinct(null=%v) result: %d rows (Err %v), its key classes number %d\n%s\nfirst result %s", other, g.groupNull, r2.Len(), r2.Err, want2, desc(), got.String())
+			}
+			r3 := res.Distinct(confFns...)
+			if r3.Err != nil || r3.Len() != len(hx.Partition(got, keyCols, g.groupNull)) {
+				t.Fatalf("Distinct of its own result with the same options: %d rows (Err %v), want %d\n%s", r3.Len(), r3.Err, len(hx.Partition(got, keyCols, g.groupNull)), desc())
+			}
+			if len(g.keys) >= 2 {
+				agg := g.d.QF.GroupBy(groupby.Columns(g.keys...), groupby.Null(g.groupNull)).Aggregate()
+				aobs, err := hx.Observe(agg)
+				if err != nil || agg.Err != nil {
+					t.Fatalf("Aggregate without aggregations: %v %v\n%s", agg.Err, err, desc())
+				}
+				aobs = hx.WithEnumDecl(aobs, in)
+				sub := g.keys[:len(g.keys)-1]
+				r4 := agg.Distinct(groupby.Columns(sub...), groupby.Null(other))
+				want4 := len(hx.Partition(aobs, sub, other))
+				if r4.Err != nil || r4.Len() != want4 {
+					t.Fatalf("Distinct(%q, null=%v) of the Aggregate result over %q: %d rows (Err %v), its key classes number %d\n%s\naggregate %s", sub, other, g.keys, r4.Len(), r4.Err, want4, desc(), aobs.String())
 				}
 			}
 		}
